@@ -6,7 +6,7 @@ import Mdsort.Proofs.MainText
 import Mdsort.Proofs.MainTextMacros
 import Mdsort.Proofs.MainTextLex
 import Mdsort.Proofs.MainTextLexTree
-import Mdsort.Proofs.ConfCfg2
+import Mdsort.Proofs.ConfCfg4
 
 /-!
 # C14 - a configuration is accepted or rejected as a whole, and the parser is total
@@ -290,6 +290,28 @@ example :
     (Spec.Cfg.N "expr1" [Spec.Cfg.T "expr3"]).ok Gen.productions = false ∧
     (Spec.Cfg.N "expr1" [Spec.Cfg.N "expr3" [Spec.Cfg.T "OLD"]]).ok Gen.productions = true := by
   decide +kernel
+
+/-- The other direction, for the hand-written parser model: EVERY byte string `parseConfig` accepts (no
+diagnostic, any `-D` definitions, any home directory, any regex library) is a sentence of the grammar
+parse.y has now - the token kinds the lexer model delivers for it up to the end of the input, in the
+modes the grammar's mid-rule actions set (`Lexes`), are the yield of a checked parse tree over
+`Gen.productions` whose root is the start symbol.  So the recursive-descent model accepts nothing the
+context-free grammar does not derive (it rejects more: the semantic checks); none of the two `error`
+productions is used.  Not stated: that the tree is the one the LALR automaton builds (the grammar is
+ambiguous without the `%left` declarations, which are regenerated as data, `Gen.grammarPrecedence`,
+but not interpreted). -/
+theorem C14_model_parser_uses_grammar (home : Bytes) (defs : List (Bytes × Bytes)) (rxOk : Pat → Bool) (input : Bytes)
+    (blocks : List PBlock) (h : parseConfig home defs rxOk input = .ok blocks) :
+    ∃ t : Spec.Cfg.Tree, t.ok Gen.productions = true ∧ t.root = Gen.grammarStart ∧
+      Spec.Cfg.Lexes false input t.yield :=
+  Proofs.Cfg.accepted_in_grammar h
+
+/-- Non-vacuity: an accepted file with a macro definition, a comment, a bare string, a date with a unit
+prefix, a pattern with another delimiter and an attachment block (none of which `Spec.printBlocks` writes). -/
+example : ∃ b bs, parseConfig [] [] (fun _ => true)
+    "d = \"x\" # comment\nmaildir \"${d}\" { match header \"To\" |a/b|i or date access < 3 we attachment { match all exec \"t\" } }".toUTF8.toList
+      = .ok (b :: bs) :=
+  Proofs.Conf.ok_of_isOkNonempty (by decide +kernel)
 
 /-! ## The whole program from the configuration TEXT (`Model.mainText`, Model/MainText.lean)
 
